@@ -95,6 +95,18 @@ Definition nonzero (e : list N) : Prop := exists b, In b e /\ b <> 0.
 Definition burst_within (w : nat) (e : list N) : Prop :=
   exists p : nat, forall k, msg_bit e k = true -> (p <= k < p + w)%nat.
 
+(** * The inverse register step (harness: c13InvStep) and the change of the last
+    four body bytes that produces a prescribed checksum difference (harness:
+    c13DeriveBodyFault); theorem C13_suffix_fault_has_difference *)
+Definition inv_step0 (s : N) : N :=
+  if N.testbit s 31 then N.lor (N.shiftl (N.lxor s poly) 1) 1 else N.shiftl s 1.
+
+(* the four little-endian bytes of a 32-bit number *)
+Definition le32_bytes (x : N) : list N :=
+  [N.land x 255; N.land (N.shiftr x 8) 255; N.land (N.shiftr x 16) 255; N.land (N.shiftr x 24) 255].
+
+Definition suffix_fault (d : N) : list N := le32_bytes (Nat.iter 32 inv_step0 d).
+
 (** * Page loaders (file.go)
 
     A column chunk is a stream [dictionary page?] data page*.  A [FilePages]
